@@ -31,6 +31,7 @@ Inductive cop :=
 | CSubmitBad (pre : bool)
 | CSeq (k : nat) (ns : Z)
 | CGetSTH
+| CGetSTHSignFail                                   (* a get-sth that reached the log's signer, which the harness made return an error *)
 | CCons (first second : bytes)
 | CProof (hash : bytes) (tree_size : bytes)
 | CEntries (start end_ : bytes)
@@ -87,12 +88,20 @@ Section Replay.
     | CSubmit pre cert chain pe now => OSubmit pre (cert_of cert) (map cert_of chain) pe now 0%N
     | CSubmitBad pre => OSubmitBad pre
     | CSeq k ns => OSeq k ns
-    | CGetSTH => OGetSTH 0%N
+    | CGetSTH | CGetSTHSignFail => OGetSTH 0%N
     | CCons f s => OConsistency f s
     | CProof h t => OProofByHash h t
     | CEntries s e => OEntries s e
     | CEap i t => OEntryAndProof i t
     | CRoots => ORoots
+    end.
+
+  (* one step of the replay: the model's [step], except for the request whose signer call the
+     harness made fail (not an [op] of the histories; LogModel.fe_get_sth_signer_fails) *)
+  Definition cstep (st : state) (c : cop) : state * answer :=
+    match c with
+    | CGetSTHSignFail => fe_get_sth_signer_fails rH rcfg st
+    | _ => rstep st (to_op c)
     end.
 
   Definition pz (s : bytes) : Z := match parse_int64 s with Some z => z | None => 0 end.
@@ -151,7 +160,7 @@ Section Replay.
     match cs with
     | [] => []
     | c :: r =>
-        let '(st', a) := rstep st (to_op c) in
+        let '(st', a) := cstep st c in
         let subs' := note_sub subs c a in
         observe subs' st st' c a :: replay subs' st' r
     end.
